@@ -217,6 +217,19 @@ class Frame:
             self.loop_ordinals[id(nd)] = i
 
 
+class _OpaqueSeq:
+    """an untracked iterable inside a cut loop: unknown length, untracked elements"""
+
+    def __init__(self, n):
+        self.n = n
+
+    def length(self):
+        return self.n
+
+    def elem(self, k):
+        return Untracked()
+
+
 class Interp:
     def __init__(self, ctx, spec):
         self.ctx = ctx
@@ -939,13 +952,17 @@ class Interp:
             # execution cannot go on without a contract for that state
             self.ctx.check('%s.frame.writes_only_declared_state[%s]' % (tag, p), False, 'auxiliary')
             raise Unsupported('%s: loop mutates %s which the loop contract does not declare' % (tag, p))
+        if isinstance(it, Untracked):
+            # a collection the contract does not track: some number of elements about which nothing is known
+            it = _OpaqueSeq(ctx.fresh('n_untracked_%s' % tag, IntS))
+            ctx.assume(it.n >= 0)
         enum_start = None
         if isinstance(it, Enumerated):
             enum_start = it.start
             it = it.seq
         is_map = isinstance(it, MapItems)
         is_set = isinstance(it, SymSet) or is_map
-        if isinstance(it, SymSeq):
+        if isinstance(it, (SymSeq, _OpaqueSeq)):
             n = it.length()
         elif is_map:
             if it.m.ksort is None:
@@ -1676,6 +1693,8 @@ class Interp:
         return self.getitem(o, k, e)
 
     def slice(self, o, lo, hi, node):
+        if isinstance(o, Untracked):
+            return Untracked()
         if isinstance(o, (str, list, tuple)) and not is_sym(lo) and not is_sym(hi):
             return o[lo:hi]
         if (is_sym(o) and o.sort() == StrS) or isinstance(o, str):
